@@ -419,6 +419,41 @@ func runCase(c tcase) (fails [][2]string, okUpdates int) {
 			}
 			cur = after
 		}
+		// "An Update rejected with any error status leaves Get unchanged": a mask naming a field that does not exist
+		{
+			req := newOf(t.upd.desc.Input())
+			setStr(req, "name", devName)
+			val := newOf(t.res)
+			fill(val, 31, 2)
+			hint(val, 31)
+			req.Set(t.updField, protoreflect.ValueOfMessage(val))
+			if req.Descriptor().Fields().ByName("update_mask") != nil {
+				setMask(req, "update_mask", "no_such_field")
+				resp := newOf(t.res).Interface()
+				uerr := conns[t.upd.svc.Desc.ServiceName].Invoke(ctx, t.upd.full(), req.Interface(), resp)
+				verifrt.WaitIdle()
+				after, gerr := get("")
+				switch {
+				case gerr != nil:
+					fail("get-error", gerr.Error())
+				case uerr == nil:
+					// a server that does not look at the mask accepts the update; that is about masks (C05, C20),
+					// the clause here concerns updates that ARE rejected
+					if !proto.Equal(resp, after) {
+						fail("update-response-not-get", fmt.Sprintf("%s (mask no_such_field) returned %v but the next Get returns %v", t.upd.full(), resp, after))
+					}
+					cur = after
+				case !proto.Equal(after, cur):
+					fail("rejected-update-changed-value", fmt.Sprintf("%s returned %v but Get changed from %v to %v", t.upd.full(), uerr, cur, after))
+				}
+				for i, st := range streams {
+					if uerr != nil && len(st.got) != 0 {
+						fail("rejected-update-emitted", fmt.Sprintf("%s returned %v but stream %d received %v", t.upd.full(), uerr, i, st.got))
+					}
+					st.got, st.names = nil, nil
+				}
+			}
+		}
 		// Get with a read mask is the projection of the full Get
 		if c.ReadMsk != "" {
 			m, err := get(c.ReadMsk)
@@ -456,6 +491,7 @@ func topFields(md protoreflect.MessageDescriptor) []string {
 
 func main() {
 	h := hx.New("C14")
+	registerOpenClose(h)
 	for _, uo := range []bool{false, true} {
 		for _, n := range []int{1, 2} {
 			name := concurrentName(uo, n)
